@@ -33,7 +33,9 @@ class Failure:
         return f"Failure({self.bucket!r}, {self.detail!r})"
 
 
-class CaseTimeout(Exception):
+class CaseTimeout(BaseException):
+    """Raised by the per-case alarm. Not an Exception: the oracles catch Exception around library calls, and a slow case must
+    end up counted as a timeout (inconclusive), never as 'the library raised'."""
     pass
 
 
